@@ -237,6 +237,10 @@ class Reach:
                 if d is not None and isinstance(getattr(e, "ctx", ast.Load()), ast.Load):
                     ds = self.defs_at(at, d)
                     if not ds and isinstance(e, ast.Attribute):
+                        try:
+                            return ast.Constant(value=scalar_const(self.fi.module, self.fi.cls, e))  # class-level scalar constant
+                        except KeyError:
+                            pass
                         return ast.Attribute(value=rec(e.value), attr=e.attr, ctx=ast.Load())
                     if not ds:
                         mv = getattr(self.fi.module, "assigns", {}).get(e.id)
@@ -247,6 +251,8 @@ class Reach:
                                     return ast.Constant(value=cv)  # module-level scalar constant
                             except q.NotFoldable:
                                 pass
+                            if isinstance(mv, (ast.Tuple, ast.List)) and mv.elts and all(isinstance(x, ast.Constant) for x in mv.elts):
+                                return copy.deepcopy(mv)  # module-level table of constants
                         return ast.Name(id=e.id, ctx=ast.Load())  # global / builtin / closure
                     if len(ds) > 1:
                         return ast.Name(id=d + "@phi", ctx=ast.Load())
@@ -270,6 +276,9 @@ class Reach:
                     setattr(new, fld, [rec(x) if isinstance(x, ast.AST) else x for x in val])
                 elif isinstance(val, ast.AST):
                     setattr(new, fld, rec(val))
+            if isinstance(new, ast.Subscript) and isinstance(new.value, (ast.Tuple, ast.List)) and isinstance(new.slice, ast.Constant) and isinstance(new.slice.value, int) and not isinstance(new.slice.value, bool) \
+                    and all(isinstance(x, ast.Constant) for x in new.value.elts) and -len(new.value.elts) <= new.slice.value < len(new.value.elts):
+                return new.value.elts[new.slice.value]  # constant element of a constant table
             return new
 
         return rec(expr)
@@ -950,3 +959,73 @@ def guarding_tests(cfg: CFG, target: Node) -> List[Tuple[Node, str]]:
         if yes and no:
             out.append((n, yes[0]))
     return out
+
+
+# ---------------------------------------------------------------------------
+# round 7: small canonicalisations shared by the security checks
+
+
+def concat_canon(e: ast.AST) -> ast.AST:
+    """``b"".join([a, b, c])`` / ``"".join((a, b))`` -> ``a + b + c`` (an empty-separator join of a display is
+    plain concatenation)."""
+
+    class T(ast.NodeTransformer):
+        def visit_Call(self, node):
+            self.generic_visit(node)
+            if isinstance(node.func, ast.Attribute) and node.func.attr == "join" and isinstance(node.func.value, ast.Constant) and node.func.value.value in (b"", "") and len(node.args) == 1 \
+                    and isinstance(node.args[0], (ast.List, ast.Tuple)) and node.args[0].elts and not any(isinstance(x, ast.Starred) for x in node.args[0].elts) and not node.keywords:
+                out = node.args[0].elts[0]
+                for x in node.args[0].elts[1:]:
+                    out = ast.BinOp(left=out, op=ast.Add(), right=x)
+                return ast.copy_location(out, node)
+            return node
+
+    r = T().visit(copy.deepcopy(e))
+    ast.fix_missing_locations(r)
+    return r
+
+
+def positional_call(call: ast.Call, params: Sequence[str]) -> ast.Call:
+    """The call with its keyword arguments moved to their positions in ``params`` (the callee's parameter
+    names, without self/cls); returned unchanged when that is not possible without gaps."""
+    if not call.keywords or any(k.arg is None for k in call.keywords) or any(isinstance(a, ast.Starred) for a in call.args):
+        return call
+    slots: List[Optional[ast.AST]] = list(call.args) + [None] * max(0, len(params) - len(call.args))
+    for k in call.keywords:
+        if k.arg not in params:
+            return call
+        i = list(params).index(k.arg)
+        if i >= len(slots) or slots[i] is not None:
+            return call
+        slots[i] = k.value
+    while slots and slots[-1] is None:
+        slots.pop()
+    if any(s is None for s in slots):
+        return call
+    return ast.copy_location(ast.Call(func=call.func, args=slots, keywords=[]), call)
+
+
+def scalar_const(module, cls: Optional[ast.ClassDef], e: ast.AST):
+    """The literal a module-level name / class-level ``self.NAME`` / ``cls.NAME`` constant stands for (numbers,
+    str, bytes); raises KeyError when ``e`` is not such a constant."""
+    if isinstance(e, ast.Name) and e.id in getattr(module, "assigns", {}):
+        try:
+            v = q.fold(module.assigns[e.id], {})
+        except q.NotFoldable:
+            raise KeyError(e.id)
+        if isinstance(v, (int, float, str, bytes)) and not isinstance(v, bool):
+            return v
+    d = q.dotted(e) if isinstance(e, ast.Attribute) else None
+    if d and cls is not None and len(d.split(".")) == 2 and d.split(".")[0] in ("self", "cls", cls.name):
+        nm = d.split(".")[1]
+        vals = [st.value for st in cls.body if isinstance(st, ast.Assign) and any(isinstance(t, ast.Name) and t.id == nm for t in st.targets)]
+        vals += [st.value for st in cls.body if isinstance(st, ast.AnnAssign) and isinstance(st.target, ast.Name) and st.target.id == nm and st.value is not None]
+        stores = any(isinstance(x, ast.Attribute) and x.attr == nm and isinstance(x.ctx, (ast.Store, ast.Del)) for x in ast.walk(cls))
+        if len(vals) == 1 and not stores:
+            try:
+                v = q.fold(vals[0], {})
+            except q.NotFoldable:
+                raise KeyError(nm)
+            if isinstance(v, (int, float, str, bytes)) and not isinstance(v, bool):
+                return v
+    raise KeyError(q.unparse(e))
